@@ -65,6 +65,8 @@ func (t *Term) String() string {
 		s = "&" + t.A[0].String()
 	case "call":
 		s = t.S + "(" + joinTerms(t.A) + ")"
+	case "cat":
+		s = "cat(" + joinTerms(t.A) + ")"
 	case "dyncall":
 		s = "dyn:" + t.A[0].String() + "(" + joinTerms(t.A[1:]) + ")"
 	case "invoke":
@@ -1525,6 +1527,31 @@ func (x *TX) sliceTerm(v *ssa.Slice, at ssa.Instruction) *Term {
 	if v.High != nil {
 		hi = x.Of(v.High, v)
 	}
+	// x[a:b][c:d] is x[a+c:a+d] (constant bounds): "peel the next field off the rest" decoders
+	if base.Op == "slice" && len(base.A) == 3 {
+		a, aok := int64(0), base.A[1].Op == "none"
+		if !aok {
+			a, aok = isIntConst(base.A[1])
+		}
+		c0, cok := int64(0), lo.Op == "none"
+		if !cok {
+			c0, cok = isIntConst(lo)
+		}
+		if aok && cok {
+			nlo := mk("none", "")
+			if a+c0 != 0 {
+				nlo = &Term{Op: "const", S: strconv.FormatInt(a+c0, 10)}
+			}
+			switch {
+			case hi.Op == "none":
+				return mk("slice", "", base.A[0], nlo, base.A[2])
+			default:
+				if d, dok := isIntConst(hi); dok {
+					return mk("slice", "", base.A[0], nlo, &Term{Op: "const", S: strconv.FormatInt(a+d, 10)})
+				}
+			}
+		}
+	}
 	return mk("slice", "", base, lo, hi)
 }
 
@@ -1550,6 +1577,9 @@ func (x *TX) callTerm(c *ssa.Call) *Term {
 		for _, a := range common.Args {
 			args = append(args, x.Of(a, c))
 		}
+		if cv.Name() == "append" && len(args) == 2 && isByteSlice(common.Args[0].Type()) && isByteSliceOrString(common.Args[1].Type()) {
+			return catOf(args[0], args[1])
+		}
 		return &Term{Op: "call", S: cv.Name(), A: args}
 	}
 	callee := common.StaticCallee()
@@ -1571,6 +1601,12 @@ func (x *TX) callTerm(c *ssa.Call) *Term {
 	}
 	args = x.spliceVarargs(callee.Signature, args, off)
 	// rewrites
+	for _, e := range [][2]string{{"(encoding/binary.bigEndian).AppendUint", "be"}, {"(encoding/binary.littleEndian).AppendUint", "le"}} {
+		if strings.HasPrefix(name, e[0]) && len(args) == 3 {
+			// AppendUintNN(b, v) is b followed by the NN-bit encoding of v
+			return catOf(args[1], mk("call", e[1]+strings.TrimPrefix(name, e[0]), args[2]))
+		}
+	}
 	switch name {
 	case "sdkmath.NewIntFromBigInt":
 		if len(args) == 1 && args[0].Op == "call" && args[0].S == "(sdkmath.Int).BigInt" {
@@ -1599,6 +1635,67 @@ func (x *TX) callTerm(c *ssa.Call) *Term {
 		return t
 	}
 	return plain
+}
+
+func isByteSlice(T types.Type) bool {
+	sl, ok := T.Underlying().(*types.Slice)
+	if !ok {
+		return false
+	}
+	b, ok := sl.Elem().Underlying().(*types.Basic)
+	return ok && b.Kind() == types.Uint8
+}
+
+func isByteSliceOrString(T types.Type) bool {
+	if b, ok := T.Underlying().(*types.Basic); ok && b.Info()&types.IsString != 0 {
+		return true
+	}
+	return isByteSlice(T)
+}
+
+// catOf: the byte string a followed by b, in a normal form that does not depend on how
+// the concatenation was written (nested append, AppendUintNN on a pre-sized buffer,
+// temporaries filled by PutUintNN): cat(seg, seg, …).
+func catOf(a, b *Term) *Term {
+	segs := append(catSegs(a), catSegs(b)...)
+	switch len(segs) {
+	case 0:
+		return &Term{Op: "buf", S: "0"}
+	case 1:
+		return segs[0]
+	}
+	return &Term{Op: "cat", A: segs}
+}
+
+func catSegs(t *Term) []*Term {
+	switch {
+	case t.Op == "cat":
+		return t.A
+	case t.Op == "buf" && len(t.A) == 0 && t.S == "0":
+		return nil // make([]byte, 0, n)
+	case t.Op == "const" && t.S == "nil":
+		return nil
+	case t.Op == "slice" && len(t.A) == 3 && t.A[1].Op == "none" && t.A[2].Op == "const" && t.A[2].S == "0":
+		return nil // x[:0]: make([]byte, 0, n) written with an explicit capacity
+	case t.Op == "buf" && len(t.A) > 0 && t.S == strconv.Itoa(len(t.A)):
+		// every byte a constant: the same bytes as a string literal converted to []byte
+		bs := make([]byte, len(t.A))
+		for i, a := range t.A {
+			v, isC := isIntConst(a)
+			if !isC || t.F[i] != "["+strconv.Itoa(i)+"]" || v < 0 || v > 255 {
+				return []*Term{t}
+			}
+			bs[i] = byte(v)
+		}
+		return []*Term{{Op: "conv", S: "[]byte", A: []*Term{{Op: "const", S: strconv.Quote(string(bs))}}}}
+	case t.Op == "buf" && len(t.A) == 1 && t.F[0] == "[0:]" && t.A[0].Op == "call":
+		// a temporary of exactly the value's width, filled by one PutUintNN
+		w := map[string]string{"be16": "2", "be32": "4", "be64": "8", "le16": "2", "le32": "4", "le64": "8"}
+		if t.S == w[t.A[0].S] {
+			return []*Term{t.A[0]}
+		}
+	}
+	return []*Term{t}
 }
 
 func (x *TX) spliceVarargs(sig *types.Signature, args []*Term, off int) []*Term {
@@ -1793,7 +1890,7 @@ func (x *TX) inlineHelper(c *ssa.Call, callee *ssa.Function, args []*Term, plain
 	defer delete(inlining, callee)
 	for _, e := range x.p.closure(callee) {
 		switch e.Kind {
-		case "EXTERNAL", "R", "PANIC", "ESCAPE":
+		case "EXTERNAL", "R", "ITER", "PAGE", "PANIC", "ESCAPE", "UNRESOLVED":
 			// value identity is unaffected; the effects themselves are accounted for by
 			// the effect closure of the caller
 		default:
